@@ -16,9 +16,12 @@ def relevant(d, hist):
 
 def signature(d, hist):
     op = hist[-1]["op"]
+    uc = R.upsert_class(hist)
+    if uc:
+        return "state_changed_by_failed_%s:upsert:%s" % (R.opname(op) if op["k"] == "upsert" else op["k"], uc)
     if op["k"] == "insert" and len(op["rows"]) > 1:
         return "failed_multi_row_insert_partially_applied"
-    return "state_changed_by_failed_%s:%s" % (op["k"], ",".join(R.features(hist)) or "-")
+    return "state_changed_by_failed_%s:%s" % (R.opname(op) if op["k"] == "upsert" else op["k"], ",".join(R.features(hist)) or "-")
 
 
 def focus(c):
@@ -76,6 +79,8 @@ def autoinc_phase(chk):
 
 def run(chk):
     relrun.standard(chk, relevant, signature, focus=focus)
+    chk.cov["upsert"] = relrun.upsert_phase(chk, relevant, signature)
+    chk.mark("upsert")
     autoinc_phase(chk)
 
 
